@@ -93,5 +93,9 @@ def gen_big(ch):
 
 
 def shard(ctx):
+    # ring spans / branch lengths around the 1/2/3 index-symbol boundaries, plain and with marked ring-closure bonds
+    for j, (name, smi) in enumerate(RTM.long_index_ladder(ctx.tier)):
+        if j % ctx.nshards == ctx.shard:
+            ctx.check(dict(table={"?": 8}, smiles=smi, truth=RTM.truth_from_reading(smi), source="template"))
     ctx.drive("main", gen_case, ctx.n(2500, 40000), max_bytes=900)
     ctx.drive("big", gen_big, ctx.n(60, 1500), max_bytes=6000)
